@@ -143,14 +143,15 @@ def tracked_objects(index: Index, interp_cls: ClassInfo, it: Interp):
         for (cn, attr), comp in it.composites.items():
             if cn == c.name:
                 tracked[f"self.{attr}"] = {a for a in stored_attrs(comp) if a in CACHE_PARTS}
-    # `_centroid` is a cache only where it is derived (ConvexPolyhedron); curved shapes store it as primary
+    # `_centroid` is a cache wherever a vertex-based class stores it (derived from the vertices); curved shapes store it as primary
     for oid in list(tracked):
         cls = interp_cls if oid == "self" else None
         if oid != "self":
             attr = oid.split(".", 1)[1]
             cls = it.composite_of(interp_cls, attr)
-        if cls is None or not cls.is_subclass_of("ConvexPolyhedron"):
-            tracked[oid].discard("_centroid")
+        from .model import VERTEX_BASED
+        if cls is None or cls.name not in VERTEX_BASED:
+            tracked[oid].discard("_centroid")        # curved shapes: the centre is primary state
     return tracked
 
 
